@@ -1010,7 +1010,8 @@ where
     ```
     */
     pub fn number_of_edges(&self) -> usize {
-        self.edges.len()
+        // `edges` is keyed by node pair; parallel edges share a key and are counted individually
+        self.edges.values().map(|edges| edges.len()).sum()
     }
 
     /**
